@@ -83,7 +83,8 @@ Theorem C23_chain_rest_cleared : forall a s s', cmd_chain a s = Done s' ->
   /\ deftype s' = (if c_merge a then deftype s else repeat 33 26)
   /\ functions s' = (if c_all a then functions s else [])
   /\ m_prog_size s' = c_new_prog_size a /\ run_mode s' = true /\ m_allow_collect s' = true
-  /\ (m_total s', m_stack s', m_code_start s', files s') = (m_total s, m_stack s, m_code_start s, files s).
+  /\ (m_total s', m_stack s', m_code_start s', files s', def_seg s')
+     = (m_total s, m_stack s, m_code_start s, files s, def_seg s).
 Proof. exact chain_rest. Qed.
 Print Assumptions C23_chain_rest_cleared.
 
@@ -112,7 +113,7 @@ Definition ex_state : state :=
     [([78; 37], [1])] [([78; 37], [7; 0; 9; 0])] [[78; 37]] 13 (Some 0) true
     [(65018, [97; 98; 99]); (65021, [120; 121])] 65017 [] (repeat 33 26) [[70; 33]]
     [1] [2; 3] [4] (Some 100) false false 5 17 None 40 true false 77
-    [1] [1] [] false [1] false.
+    [1] [1] [] false [1] false 64.
 Definition ex_chain : chain_args :=
   mkChain false false None false false false false false 50
           [([66; 36], 0); ([78; 37], 1)] [[66; 36]] [[78; 37]].
